@@ -144,7 +144,7 @@ def handle (op : String) (j : Json) : Option Json :=
   else if op == "c11.pair" then
     match getNat? j "ploidy", (getObj? j "t0").bind parseTable, (getObj? j "t1").bind parseTable with
     | some p, some t0, some t1 =>
-      match comparePair (flag j "fixA") (flag j "fixB") (flag j "fix3") (flag j "fix45") p t0 t1 with
+      match comparePair (flag j "fixA") (flag j "fixB") (flag j "fix3") (flag j "fix45") (flag j "fix46") p t0 t1 with
       | none => some (Json.str "error")
       | some r =>
         some (pairJson r)
@@ -152,7 +152,7 @@ def handle (op : String) (j : Json) : Option Json :=
   else if op == "c11.multiway" then
     match (getList? j "tables").bind (·.mapM parseTable) with
     | some tables =>
-      match compareMultiway (flag j "fixC") tables with
+      match compareMultiway (flag j "fixC") (flag j "fix46") tables with
       | none => some (Json.str "error")
       | some (total, hist) =>
         some (Json.mkObj [("total", ofNat total),
@@ -162,7 +162,7 @@ def handle (op : String) (j : Json) : Option Json :=
     match getNat? j "ploidy", getBool? j "ignore", getBool? j "only_snvs", (getList? j "files").bind (·.mapM parseFile) with
     | some p, some ig, some os, some files =>
       let o : Opts := ⟨p, getStr? j "sample", ig, os⟩
-      match runCompare (flag j "fix3") (flag j "fix45") o files with
+      match runCompare (flag j "fix3") (flag j "fix45") (flag j "fix46") o files with
       | .error e => some (Json.mkObj [("error", Json.str (runErrorName e))])
       | .ok cs => some (Json.mkObj [("chroms", ofList chromJson cs)])
     | _, _, _, _ => some badInput
